@@ -1,7 +1,7 @@
 /-
 C13 — property theorems. Model: `HydroVerif/Model/C13.lean`.
 -/
-import HydroVerif.Lemmas.C13
+import HydroVerif.Lemmas.C13Header
 
 namespace HydroVerif.C13
 
@@ -136,5 +136,117 @@ theorem load_saveData {ν : Type} (g : Grid ν) (ht : 0 < g.dtype.bytes) (hb : g
     funext w; rfl
   rw [he] at this
   exact this
+
+/-! ## 4. the header is parsed back to what was written -/
+
+/-- **header round trip** (`parse (write g) = meta g`): for every supported dtype, either byte-order letter, every
+shape, any georeferencing numbers, any no-data value and any single-line name / comment / parent attributes,
+the text written by `Grid.save` is split into the same lines, every line is accepted, and `from_stream` builds
+a grid with the same shape, corner, cell size, dtype, byte order and no-data word (fresh zero data, default
+bounds). External facts used: `float(str(x)) = x` and "`str(x)` has no white space" (`IOok`), and for float
+no-data values `NodataPrintable`. -/
+theorem header_roundtrip {ν : Type} (io : NumIO ν) (hio : IOok io) (bo : ByteOrder) (g : Grid ν) (hg : HeaderOK io g)
+    (d : Str) :
+    ∃ h, writeHeaderBO io bo g = .ok h ∧ ∃ c hi,
+      parseLines io (Config.init io d) (readlines h) = .ok c ∧ finishConfig io c = .ok hi ∧
+      hi.byteorder = bo ∧ hi.grid.nrows = g.nrows ∧ hi.grid.ncols = g.ncols ∧
+      hi.grid.xll = g.xll ∧ hi.grid.yll = g.yll ∧ hi.grid.csz = g.csz ∧ hi.grid.dtype = g.dtype ∧
+      hi.grid.nodata = g.nodata ∧ hi.grid.lo = none ∧ hi.grid.hi = none ∧
+      hi.grid.data = zeros g.nrows.toNat g.ncols.toNat := by
+  obtain ⟨hpix, hpixline, hdtL, hdtB⟩ := pixel_table g.dtype hg.supported
+  unfold writeHeaderBO
+  rw [hpix]
+  refine ⟨_, rfl, ?_⟩
+  simp only [List.append_assoc]
+  have nlF : ∀ x, NoNL (io.showF x) := fun x => (hio.showF_token x).noNL
+  have nlI : ∀ i, NoNL (intStr i) := fun i => (intStr_noSpace i).noNL
+  have nlN : ∀ n, NoNL (natStr n) := fun n => (natStr_noSpace n).noNL
+  have hcomment : NoNL (if g.comment = [] then "No comment".toList else g.comment) := by
+    split
+    · decide
+    · exact hg.comment_line
+  -- line by line
+  have e1 := parseLine_int io (Config.init io d) 14 "NROWS".toList g.nrows (by decide) (by decide) (by decide)
+  rw [readlines_fmtLine 14 _ _ _ (by decide) (nlI _), parseLines_step io _ _ _ _ e1]
+  have e2 := parseLine_int io ((Config.init io d).setInt (lower "NROWS".toList) g.nrows) 14 "NCOLS".toList g.ncols
+    (by decide) (by decide) (by decide)
+  rw [readlines_fmtLine 14 _ _ _ (by decide) (nlI _), parseLines_step io _ _ _ _ e2]
+  generalize hc2 : ((Config.init io d).setInt (lower "NROWS".toList) g.nrows).setInt (lower "NCOLS".toList) g.ncols = c2
+  have e3 := parseLine_num io hio c2 14 "XLLCORNER".toList g.xll (by decide) (by decide) (by decide) (by decide)
+  rw [readlines_fmtLine 14 _ _ _ (by decide) (nlF _), parseLines_step io _ _ _ _ e3]
+  have e4 := parseLine_num io hio (c2.setNum (lower "XLLCORNER".toList) g.xll) 14 "YLLCORNER".toList g.yll
+    (by decide) (by decide) (by decide) (by decide)
+  rw [readlines_fmtLine 14 _ _ _ (by decide) (nlF _), parseLines_step io _ _ _ _ e4]
+  generalize hc4 : (c2.setNum (lower "XLLCORNER".toList) g.xll).setNum (lower "YLLCORNER".toList) g.yll = c4
+  have e5 := parseLine_num io hio c4 14 "CELLSIZE".toList g.csz (by decide) (by decide) (by decide) (by decide)
+  rw [readlines_fmtLine 14 _ _ _ (by decide) (nlF _), parseLines_step io _ _ _ _ e5]
+  have e6 := parseLine_int io (c4.setNum (lower "CELLSIZE".toList) g.csz) 14 "NBITS".toList ((g.dtype.bytes * 8 : Nat) : Int)
+    (by decide) (by decide) (by decide)
+  rw [intStr_natCast] at e6
+  rw [readlines_fmtLine 14 _ _ _ (by decide) (nlN _), parseLines_step io _ _ _ _ e6]
+  generalize hc6 : ((c4.setNum (lower "CELLSIZE".toList) g.csz).setInt (lower "NBITS".toList) ((g.dtype.bytes * 8 : Nat) : Int)) = c6
+  have e7 := parseLine_text io c6 14 "PIXELTYPE".toList (upper (pixOf g.dtype.kind)) (by decide) (by decide)
+  rw [hpixline] at e7
+  have hpixnl : NoNL (upper (pixOf g.dtype.kind)) := by cases g.dtype.kind <;> decide
+  rw [readlines_fmtLine 14 _ _ _ (by decide) hpixnl, parseLines_step io _ _ _ _ e7]
+  have e8 := parseLine_text io (c6.setText (lower "PIXELTYPE".toList) (pixOf g.dtype.kind)) 14 "BYTEORDER".toList
+    (boLetter bo) (by decide) (by decide)
+  rw [byteorder_line] at e8
+  rw [readlines_fmtLine 14 _ _ _ (by decide) (by cases bo <;> decide), parseLines_step io _ _ _ _ e8]
+  generalize hc8 : ((c6.setText (lower "PIXELTYPE".toList) (pixOf g.dtype.kind)).setText (lower "BYTEORDER".toList)
+    (boKey bo)) = c8
+  obtain ⟨nv, e9, hnv, hnvnl⟩ := nodata_line io c8 g.dtype g.nodata hg.nodata_lt hg.nodata_printable
+  rw [readlines_fmtLine 14 _ _ _ (by decide) hnvnl, parseLines_step io _ _ _ _ e9]
+  have e10 := parseLine_text io (c8.setNodata "nodata_value".toList nv) 14 "NAME".toList g.name (by decide) (by decide)
+  rw [readlines_fmtLine 14 _ _ _ (by decide) hg.name_line, parseLines_step io _ _ _ _ e10]
+  generalize hc10 : ((c8.setNodata "nodata_value".toList nv).setText (lower "NAME".toList)
+    (lower (strip (joinSp (splitRunsAux true (g.name ++ ['\n'])))))) = c10
+  have e11 := parseLine_text io c10 14 "COMMENT".toList (if g.comment = [] then "No comment".toList else g.comment)
+    (by decide) (by decide)
+  rw [readlines_fmtLine 14 _ _ _ (by decide) hcomment, parseLines_step io _ _ _ _ e11]
+  generalize hc11 : (c10.setText (lower "COMMENT".toList) (lower (strip (joinSp (splitRunsAux true
+    ((if g.comment = [] then "No comment".toList else g.comment) ++ ['\n'])))))) = c11
+  obtain ⟨p, hp⟩ := parseLines_parentBlock io g.parent hg.parent_lines parentAttrs parentAttrs_ok c11
+  suffices h : ∃ hi, finishConfig io { c11 with parent := p } = .ok hi ∧
+      hi.byteorder = bo ∧ hi.grid.nrows = g.nrows ∧ hi.grid.ncols = g.ncols ∧
+      hi.grid.xll = g.xll ∧ hi.grid.yll = g.yll ∧ hi.grid.csz = g.csz ∧ hi.grid.dtype = g.dtype ∧
+      hi.grid.nodata = g.nodata ∧ hi.grid.lo = none ∧ hi.grid.hi = none ∧
+      hi.grid.data = zeros g.nrows.toNat g.ncols.toNat by
+    obtain ⟨hi, h1, h2⟩ := h
+    exact ⟨_, hi, hp, h1, h2⟩
+  subst hc11 hc10 hc8 hc6 hc4 hc2
+  clear e1 e2 e3 e4 e5 e6 e7 e8 e9 e10 e11 hp
+  have k1 : lower "NROWS".toList = "nrows".toList := by decide
+  have k2 : lower "NCOLS".toList = "ncols".toList := by decide
+  have k3 : lower "XLLCORNER".toList = "xllcorner".toList := by decide
+  have k4 : lower "YLLCORNER".toList = "yllcorner".toList := by decide
+  have k5 : lower "CELLSIZE".toList = "cellsize".toList := by decide
+  have k6 : lower "NBITS".toList = "nbits".toList := by decide
+  have k7 : lower "PIXELTYPE".toList = "pixeltype".toList := by decide
+  have k8 : lower "BYTEORDER".toList = "byteorder".toList := by decide
+  have k10 : lower "NAME".toList = "name".toList := by decide
+  have k11 : lower "COMMENT".toList = "comment".toList := by decide
+  rw [k1, k2, k3, k4, k5, k6, k7, k8, k10, k11]
+  rw [setInt_nrows, setInt_ncols, setNum_xll, setNum_yll, setNum_csz, setInt_nbits, setText_pixeltype,
+    setText_byteorder, setNodata_value, setText_name, setText_comment]
+  unfold finishConfig
+  dsimp only
+  have hshape : ¬ (g.nrows < 0 ∨ g.ncols < 0) := by
+    have := hg.nrows_nonneg; have := hg.ncols_nonneg; omega
+  cases bo with
+  | little =>
+    have hb1 : ¬ ("i".toList ≠ "m".toList ∧ "i".toList ≠ "i".toList) := by decide
+    have hb2 : ¬ ("i".toList = "m".toList) := by decide
+    dsimp only [boKey]
+    rw [if_neg hb1]
+    simp only [if_neg hb2, hdtL, Config.init, mkGrid, hnv, if_neg hshape]
+    exact ⟨_, rfl, rfl, rfl, rfl, rfl, rfl, rfl, rfl, rfl, rfl, rfl, rfl⟩
+  | big =>
+    have hb1 : ¬ ("m".toList ≠ "m".toList ∧ "m".toList ≠ "i".toList) := by decide
+    dsimp only [boKey]
+    rw [if_neg hb1]
+    simp only [if_true, hdtB, Config.init, mkGrid, hnv, if_neg hshape]
+    exact ⟨_, rfl, rfl, rfl, rfl, rfl, rfl, rfl, rfl, rfl, rfl, rfl, rfl⟩
+
 
 end HydroVerif.C13
